@@ -2,6 +2,7 @@
 From Coq Require Import Reals Lra List.
 From PV Require Import Num PyBase Model.Component Model.Mixture Model.Permeance Model.Solver Model.Process Model.Curve Model.Fit Model.NonIdealCurve
   Lemmas.Composition Lemmas.Activity Lemmas.Process Lemmas.Basis Lemmas.NonIdealCurve.
+From PV Require Import Model.Curve Lemmas.Basis Lemmas.Entry.
 Import ListNotations.
 Local Open Scope R_scope.
 
@@ -61,5 +62,35 @@ End C07.
 Theorem C07_reports_weight (m : Mixture ROps) c x0 : to_weight ROps c m = Ok x0 -> 0 <= cp c <= 1 -> ctype x0 = Weight /\ 0 <= cp x0 <= 1.
 Proof. exact (to_weight_result m c x0). Qed.
 
+(* ---- the points of a diffusion curve ---- *)
+(* DiffusionCurve(...) built from fluxes, from permeances or from both: same temperature, fluxes, permeate condition and
+   permeances whichever basis the feed compositions are given in (for any basis-independent partial-pressure function;
+   the real one is, next theorem) *)
+Theorem C07_curve_construction (m : Mixture ROps) (PP : PPfun ROps) T ws J Tp pp P :
+  0 < mw (c1 m) -> 0 < mw (c2 m) ->
+  (forall T w ct, 0 <= w <= 1 -> PP T (as_weight w) ct = PP T (as_molar m w) ct) -> Forall unit_frac ws ->
+  lift curve_data (mk_curve ROps PP m (Build_CurveIn ROps T (map as_weight ws) J Tp pp P))
+  = lift curve_data (mk_curve ROps PP m (Build_CurveIn ROps T (map (as_molar m) ws) J Tp pp P)).
+Proof. intros _ _ H. exact (mk_curve_basis m PP H T ws J Tp pp P). Qed.
+
+Theorem C07_real_partial_pressures (m : Mixture ROps) : 0 < mw (c1 m) -> 0 < mw (c2 m) ->
+  forall T w ct, 0 <= w <= 1 -> real_PP ROps m T (as_weight w) ct = real_PP ROps m T (as_molar m w) ct.
+Proof. exact (real_PP_basis m). Qed.
+
+Theorem C07_curve_separation_factor (m : Mixture ROps) T ws J Tp pp P : 0 < mw (c1 m) -> 0 < mw (c2 m) -> Forall unit_frac ws ->
+  curve_separation_factor ROps m (Build_Curve ROps T (map as_weight ws) J Tp pp P)
+  = curve_separation_factor ROps m (Build_Curve ROps T (map (as_molar m) ws) J Tp pp P).
+Proof. intros H1 H2. exact (curve_separation_factor_basis m H1 H2 T ws J Tp pp P). Qed.
+
+Theorem C07_ideal_diffusion_curve (m : Mixture ROps) (PP : PPfun ROps) (slv : SolveArgs ROps -> res (R * R)) T ws Tp pp prec ct :
+  (forall T w ct, 0 <= w <= 1 -> PP T (as_weight w) ct = PP T (as_molar m w) ct) ->
+  (forall a w, 0 <= w <= 1 -> slv (set_sx a (as_weight w)) = slv (set_sx a (as_molar m w))) -> Forall unit_frac ws ->
+  lift curve_data (ideal_diffusion_curve ROps PP m slv T (map as_weight ws) Tp pp prec ct)
+  = lift curve_data (ideal_diffusion_curve ROps PP m slv T (map (as_molar m) ws) Tp pp prec ct).
+Proof. intros H. exact (ideal_curve_basis m PP H slv T ws Tp pp prec ct). Qed.
+
 Print Assumptions C07_flux_solver.
 Print Assumptions C07_non_ideal.
+
+Print Assumptions C07_curve_construction.
+Print Assumptions C07_ideal_diffusion_curve.
